@@ -1,5 +1,6 @@
 #!/bin/bash
-# usage: try_seed.sh <seed-name> <patch.diff> <check ids...>   -- apply patch to /repo, run the checks, revert
+# usage: try_seed.sh <seed-name> <patch.diff> <check ids...>   -- apply patch to /repo, run the checks, revert,
+# then run the same checks again on the restored tree (so that evidence/ always describes /repo itself; must be silent)
 name=$1; patch=$2; shift 2
 cd /repo || exit 2
 git diff --quiet || { echo "repo dirty"; exit 2; }
@@ -10,3 +11,8 @@ for id in "$@"; do
 done
 git -C /repo checkout -- . 
 git -C /repo status --short | head -3
+for id in "$@"; do
+  out=$(cd /verif && timeout 1200 bin/check $id --tier quick 2>&1 | grep -v conda | grep -v KNOWN-FINDING | tail -3)
+  [ -n "$out" ] && echo "[$name] $id on the restored tree -> $out"
+done
+exit 0
